@@ -170,10 +170,15 @@ Section Proofs.
   Variable rib_to_fib : ribT -> name -> fibT -> fibT.
   Variable face_cleanup : N -> ribT -> fibT -> ribT * fibT.
   Variable allow : bool.
+  Variable ds_fits : dataset -> bool.
 
-  Notation rib_module := (rib_module rib_to_fib).
-  Notation face_module := (face_module face_cleanup).
-  Notation run := (run rib_to_fib face_cleanup allow).
+  Notation rib_module := (rib_module rib_to_fib ds_fits).
+  Notation face_module := (face_module face_cleanup ds_fits).
+  Notation fib_module := (fib_module ds_fits).
+  Notation strat_module := (strat_module ds_fits).
+  Notation cs_module := (cs_module ds_fits).
+  Notation status_module := (status_module ds_fits).
+  Notation run := (run rib_to_fib face_cleanup allow ds_fits).
 
   (* ------------------------------------------------------------------------------------------------
      mgmt_reject_pure: anything but a ControlResponse with status 200 leaves the state untouched *)
@@ -184,12 +189,12 @@ Section Proofs.
     intros st' vs' r H Hacc; unf; cbv beta zeta in H; cases_of H; inv_ok H;
     first [reflexivity | cbv beta iota delta [accepted] in Hacc; closed_bool Hacc].
 
-  Ltac unf_rib H := unfold Model.rib_module, rib_register, rib_unregister, rib_announce, rib_list, with_params, ctl in H.
-  Ltac unf_fib H := unfold fib_module, fib_add, fib_remove_cmd, fib_list, with_params, ctl in H.
-  Ltac unf_strat H := unfold strat_module, strat_set_cmd, strat_unset_cmd, strat_list, with_params, ctl in H.
-  Ltac unf_cs H := unfold cs_module, cs_config, cs_info, with_params, ctl in H.
-  Ltac unf_status H := unfold status_module, ctl in H.
-  Ltac unf_face H := unfold Model.face_module, face_create, face_update, face_destroy, face_list, face_query, with_params, ctl in H.
+  Ltac unf_rib H := unfold Model.rib_module, rib_register, rib_unregister, rib_announce, rib_list, with_params, ctl, publish in H.
+  Ltac unf_fib H := unfold Model.fib_module, fib_add, fib_remove_cmd, fib_list, with_params, ctl, publish in H.
+  Ltac unf_strat H := unfold Model.strat_module, strat_set_cmd, strat_unset_cmd, strat_list, with_params, ctl, publish in H.
+  Ltac unf_cs H := unfold Model.cs_module, cs_config, cs_info, with_params, ctl, publish in H.
+  Ltac unf_status H := unfold Model.status_module, ctl, publish in H.
+  Ltac unf_face H := unfold Model.face_module, face_create, face_update, face_destroy, face_list, face_query, with_params, ctl, publish in H.
 
   Lemma rib_module_pure st vs c : pure st (rib_module st vs c).
   Proof. pure_tac ltac:(unf_rib H). Qed.
@@ -432,15 +437,15 @@ Section Proofs.
   Ltac guarded_tac m flag :=
     intros Hloc st' vs' r H; unfold m in H; rewrite flag, Hloc in H; cbn [negb andb] in H; inv_ok H; reflexivity.
   Lemma cs_module_guard st vs c : is_prefix local_prefix (c_name c) = false -> unchanged st (cs_module st vs c).
-  Proof. destruct local_only_flags as [F1 [F2 [F3 [F4 [F5 F6]]]]]. guarded_tac cs_module F1. Qed.
+  Proof. destruct local_only_flags as [F1 [F2 [F3 [F4 [F5 F6]]]]]. guarded_tac Model.cs_module F1. Qed.
   Lemma face_module_guard st vs c : is_prefix local_prefix (c_name c) = false -> unchanged st (face_module st vs c).
   Proof. destruct local_only_flags as [F1 [F2 [F3 [F4 [F5 F6]]]]]. guarded_tac Model.face_module F2. Qed.
   Lemma fib_module_guard st vs c : is_prefix local_prefix (c_name c) = false -> unchanged st (fib_module st vs c).
-  Proof. destruct local_only_flags as [F1 [F2 [F3 [F4 [F5 F6]]]]]. guarded_tac fib_module F3. Qed.
+  Proof. destruct local_only_flags as [F1 [F2 [F3 [F4 [F5 F6]]]]]. guarded_tac Model.fib_module F3. Qed.
   Lemma status_module_guard st vs c : is_prefix local_prefix (c_name c) = false -> unchanged st (status_module st vs c).
-  Proof. destruct local_only_flags as [F1 [F2 [F3 [F4 [F5 F6]]]]]. guarded_tac status_module F4. Qed.
+  Proof. destruct local_only_flags as [F1 [F2 [F3 [F4 [F5 F6]]]]]. guarded_tac Model.status_module F4. Qed.
   Lemma strat_module_guard st vs c : is_prefix local_prefix (c_name c) = false -> unchanged st (strat_module st vs c).
-  Proof. destruct local_only_flags as [F1 [F2 [F3 [F4 [F5 F6]]]]]. guarded_tac strat_module F5. Qed.
+  Proof. destruct local_only_flags as [F1 [F2 [F3 [F4 [F5 F6]]]]]. guarded_tac Model.strat_module F5. Qed.
 
   Theorem run_authorised st vs c st' vs' r :
     run st vs c = Ok st' vs' r -> st' = st \/ authorised allow (c_name c) = true.
@@ -490,6 +495,51 @@ Section Proofs.
   Proof.
     apply run_cases; try (intros st' vs' r H; first [discriminate H | inv_ok H; reflexivity]);
       auto using rib_module_ds, fib_module_ds, strat_module_ds, cs_module_ds, status_module_ds, face_module_ds.
+  Qed.
+
+  (* ------------------------------------------------------------------------------------------------
+     datasets_answered (partial): a dataset request is answered - PROVIDED the encoded dataset fits one segment.
+     makeStatusDataset gives up above 8000 bytes and then nothing is sent (known finding, see answered_refuted). *)
+  Ltac eval_comp_is H :=
+    repeat match type of H with
+    | context [comp_is (gcomp ?a) ?b] =>
+        let r := eval vm_compute in (comp_is (gcomp a) b) in change (comp_is (gcomp a) b) with r in H
+    end.
+
+  Lemma dataset_request_len c : (length (c_name c) =? plen + 2)%nat = true ->
+    (length (c_name c) <? plen + N.to_nat k_run_min_extra)%nat = false /\ is_dataset_request c = true.
+  Proof.
+    intros H. apply Nat.eqb_eq in H. unfold is_dataset_request. rewrite H. split.
+    - apply Nat.ltb_ge. replace (N.to_nat k_run_min_extra) with 2%nat by reflexivity. lia.
+    - apply Nat.leb_le. lia.
+  Qed.
+
+  Theorem run_answered st vs c st' vs' r :
+    (forall d, ds_fits d = true) -> run st vs c = Ok st' vs' r -> spec_answered allow c r = true.
+  Proof.
+    intros Hfits H. unfold spec_answered. destruct (is_dataset_cmd allow (c_name c)) eqn:E; [|reflexivity].
+    cbn [negb orb]. unfold is_dataset_cmd in E. apply andb_true_iff in E as [Hlen E].
+    destruct (dataset_request_len c Hlen) as [Hl Hd].
+    destruct (nth_error (c_name c) plen) as [m|] eqn:Hm; [|discriminate].
+    destruct (nth_error (c_name c) (plen + 1)) as [v|] eqn:Hv; [|discriminate].
+    destruct local_only_flags as [F1 [F2 [F3 [F4 [F5 F6]]]]]. destruct run_guard_flags as [G _].
+    unfold Model.run in H. cbv zeta in H. rewrite Hl, Hm, G in H.
+    apply orb_true_iff in E as [E|E].
+    - apply andb_true_iff in E as [Hloc E]. rewrite Hloc in H. cbn [negb andb] in H.
+      apply existsb_exists in E as [[a b] [Hin E]]. cbn [fst snd] in E. apply andb_true_iff in E as [Ea Eb].
+      apply comp_is_eq in Ea, Eb. subst m v.
+      unfold dataset_verbs in Hin. cbn [In] in Hin.
+      repeat destruct Hin as [Hin|Hin]; try contradiction; inversion Hin; subst a b; clear Hin;
+        eval_comp_is H;
+        unfold Model.rib_module, Model.fib_module, Model.strat_module, Model.cs_module, Model.face_module, Model.status_module, verb_of in H;
+        rewrite ?F1, ?F2, ?F3, ?F4, ?F5, ?Hloc, ?Hv in H; cbn [negb andb] in H; eval_comp_is H;
+        unfold rib_list, fib_list, strat_list, cs_info, face_list, publish in H; rewrite ?Hd, ?Hfits in H; cbn [negb] in H;
+        inv_ok H; reflexivity.
+    - apply andb_true_iff in E as [E Eb]. apply andb_true_iff in E as [E Ea]. apply andb_true_iff in E as [Hal Hnl].
+      apply comp_is_eq in Ea, Eb. subst m v. rewrite Hal, Hnl in H. cbn [negb andb] in H.
+      rewrite andb_false_r in H. eval_comp_is H.
+      unfold Model.rib_module, verb_of in H. rewrite Hv in H. eval_comp_is H.
+      unfold rib_list, publish in H. rewrite Hd, Hfits in H. cbn [negb] in H. inv_ok H. reflexivity.
   Qed.
 
   (* ------------------------------------------------------------------------------------------------
@@ -552,3 +602,39 @@ Section Proofs.
       + exfalso. apply inv_split in Hi as [_ [_ [_ Hw]]]. exact (run_total st vs c Hw H).
   Qed.
 End Proofs.
+
+(* ---- datasets_answered is refuted for the pinned code as soon as a dataset exceeds one segment ----
+   Whatever the codec is, a RIB dataset takes at least 4 bytes per entry; an honest "fits" test therefore says no for a RIB
+   of 2001 entries (it says no far earlier: from about 180 routes in the implementation), and the request goes unanswered. *)
+Definition rib_ds_size_lb (t : ribT) : N := 4 * N.of_nat (length t).
+Definition honest_fits (fits : dataset -> bool) : Prop :=
+  forall t, fits (DRib t) = true -> rib_ds_size_lb t <= k_dataset_max_bytes.
+Definition big_rib : ribT := map (fun i => ([gcomp [N.of_nat i]], [Build_route 2 0 0 1 None])) (seq 0 2001).
+Definition big_state : state := Build_state big_rib [] initial_strat 1024 [].
+Definition rib_list_cmd : cmd := Build_cmd 2 (local_prefix ++ [gcomp w_rib; gcomp w_list]) None 0 QErr.
+
+Lemma answered_refuted : forall rib_to_fib face_cleanup fits, honest_fits fits ->
+  inv big_state = true /\ is_dataset_cmd false (c_name rib_list_cmd) = true /\
+  forall vs, exists vs', run rib_to_fib face_cleanup false fits big_state vs rib_list_cmd = Ok big_state vs' RNone.
+Proof.
+  intros rtf fc fits Hh. split; [vm_compute; reflexivity|]. split; [vm_compute; reflexivity|].
+  intros vs. exists (bump_rib vs).
+  assert (Hf : fits (DRib big_rib) = false).
+  { destruct (fits (DRib big_rib)) eqn:E; [|reflexivity]. apply Hh in E. vm_compute in E. exfalso. apply E. reflexivity. }
+  unfold run. cbv zeta.
+  replace (length (c_name rib_list_cmd) <? plen + N.to_nat k_run_min_extra)%nat with false by reflexivity.
+  replace (is_prefix local_prefix (c_name rib_list_cmd)) with true by reflexivity. cbn [negb andb].
+  replace (nth_error (c_name rib_list_cmd) plen) with (Some (gcomp w_rib)) by reflexivity.
+  replace (comp_is (gcomp w_rib) [99; 115]) with false by reflexivity.
+  replace (comp_is (gcomp w_rib) [102; 97; 99; 101; 115]) with false by reflexivity.
+  replace (comp_is (gcomp w_rib) [102; 105; 98]) with false by reflexivity.
+  replace (comp_is (gcomp w_rib) [114; 105; 98]) with true by reflexivity.
+  unfold rib_module, verb_of.
+  replace (nth_error (c_name rib_list_cmd) (plen + 1)) with (Some (gcomp w_list)) by reflexivity.
+  replace (comp_is (gcomp w_list) [114; 101; 103; 105; 115; 116; 101; 114]) with false by reflexivity.
+  replace (comp_is (gcomp w_list) [117; 110; 114; 101; 103; 105; 115; 116; 101; 114]) with false by reflexivity.
+  replace (comp_is (gcomp w_list) [97; 110; 110; 111; 117; 110; 99; 101]) with false by reflexivity.
+  replace (comp_is (gcomp w_list) [108; 105; 115; 116]) with true by reflexivity.
+  unfold rib_list, publish. replace (is_dataset_request rib_list_cmd) with true by reflexivity. cbn [negb].
+  change (s_rib big_state) with big_rib. rewrite Hf. reflexivity.
+Qed.
